@@ -8,6 +8,7 @@ import DesyncModel.Lemmas
 import DesyncModel.Setters
 import DesyncModel.Inv.Holder
 import DesyncModel.Inv.SigReach
+import DesyncModel.Inv.DrainReach
 
 namespace Desync.C07
 open Desync Gen
@@ -137,5 +138,18 @@ theorem signal_step_raises_flag (s s' : State) (a j r : Nat) (c : Ctx) (k : Pc) 
 theorem signalled_job_is_never_requeued {s : State} (hr : Reachable s) {q j : Nat} {v : JobQ} {jb : Job}
     (hv : s.qs[q]? = some v) (hm : j ∈ v.jobs) (hj : s.jobs[j]? = some jb) : jb.sig = false :=
   signalled_job_not_queued hr hv hm hj
+
+/-- **Dropping the designated poller of a queue always releases the queue** (the repair of defect F6, as an invariant): in
+every reachable state, if a queue is waiting to be polled by future `f`, then `f` exists, belongs to that queue and has its
+`draining` flag set (`DrainInv`, inductive over all program counters: Inv/Drain, DrainStep, DrainReach) — so the step that
+drops `f` takes the branch of `dropped_poller_hands_back`: the queue becomes idle and is rescheduled. -/
+theorem dropping_designated_poller_releases_queue {s s' : State} (hr : Reachable s) {a f q : Nat} {k : Pc} {act : Act} {o : Obs} {v : JobQ}
+    (hv : s.qs[q]? = some v) (hst : v.state = .waitingForPoll f)
+    (ha : s.acts[a]? = some act) (hc : act.child = none) (hpc : act.pc = .fdDrop f k) (hstep : stepAct s a = some (s', o)) :
+    s'.qs[q]? = some { v with state := .idle } ∧ s'.acts[a]? = some { act with pc := .rqCs q k } := by
+  obtain ⟨fu, hf, hd, hq⟩ := designated_poller_is_draining hr hv hst
+  subst hq
+  have := dropped_poller_hands_back s s' a f k act o fu v ha hc hpc hf hv hd hst hstep
+  exact ⟨this.1, this.2.1⟩
 
 end Desync.C07
